@@ -11,7 +11,12 @@ Case kinds
   schema     {"kind","cols":[col...],"ids":bool}   convert_orso_schema_to_arrow_schema / convert_arrow_schema_to_orso_schema
   frameops   {"kind","cols":[colspec],"tables":[[chunk,...],...],"source":arrow-list|arrow-gen|arrow-single|rows-list|rows-gen,
               "ops":[["arrow",size|None]|["rowcount"]|["materialize"],...]}   ONE DataFrame (over Arrow tables, or over Python rows given
-             as a list / a generator), the calls made on it one after the other; every exported table is read column by column
+             as a list / a generator), the calls made on it one after the other; every exported table is read column by column;
+             round 3: also ["rename", j, new name] = a column of the frame's schema (or the caller's list of names) renamed IN PLACE
+  iterops    {"kind","cols","tables","size","how", "ops":[["next"]|["iternext"]|["islice",k]|["forbreak",k]|["list"]|["for"],...]}
+             the rows iterator orso.converters.from_arrow returns, consumed in several steps on the same object
+  colops     {"kind","col":{...}, "ops":[["set",attr,value]|["field"]|["schema",ids],...]}  ONE FlatColumn object: attributes assigned in
+             place (type, elem, p, s, name, nullable), arrow_field / convert_orso_schema_to_arrow_schema read in between
 
 Canonical cells (JSON): None | ["b",bool] | ["i",int] | ["f",bits] | ["s",str] | ["x",hex] | ["t",ns since epoch]
   | ["d",days since epoch] | ["n",unscaled,exp] (decimal, normalised) | ["l",[cells]] | ["?",type name]
@@ -44,7 +49,12 @@ LEVEL_TEXT = ("Machine-checked Coq theorems: for every list of tables (empty tab
               "ALL the frame's rows, whatever was called before (state machine lazy-iterator/list proved); the FlatColumn constructor's decimal block "
               "is modelled (closed form proved equal to probes of the live constructor on every 0<=s<=p<=38, by attribute and by type name) and "
               "FlatColumn.from_arrow goes through it, so DECIMAL(p,s) AS ASKED FOR round-trips; tied to the code by all call sequences of length "
-              "<= 2 (3 on a three-table stream) x 5 ways of backing the frame, and by comparing every constructed column with the request.")
+              "<= 2 (3 on a three-table stream) x 5 ways of backing the frame, and by comparing every constructed column with the request. Round 3 "
+              "(objects used more than once / modified in place): the rows iterator consumed in ANY sequence of next / islice / for-break / list steps "
+              "delivers consecutive segments of the rows (proved, any session); one FlatColumn object under any sequence of in-place assignments and "
+              "reads: each read returns what a column with the CURRENT attributes returns and round-trips when those are in the typing class (proved); "
+              "one frame under calls and in-place renames answers from its rows and the names in force (proved); all three run as sessions against "
+              "the real objects (exhaustive small sessions + random).")
 LEVEL_NOTE = ("PARTIAL by construction: cell fidelity through pyarrow/pandas (process_table: to_batches, to_pandas, replace, itertuples; "
               "Table.from_arrays) is NOT proved: in the theorems process_table / Table.from_arrays are Section oracles with the explicit premise "
               "that they return the table's rows; that premise is decided by the differential run only (cells compared in Coq against the values the "
@@ -55,13 +65,16 @@ LEVEL_NOTE = ("PARTIAL by construction: cell fidelity through pyarrow/pandas (pr
               "decimal128(...) call), pyarrow's decimal128 range check (1..38) as modelled. No axioms (Print Assumptions: closed). "
               "Frame state machine: the fetchone/fetchmany/fetchall cursor (which shares the iterator of a lazy frame) is NOT modelled; exported "
               "tables are read with pyarrow's to_pylist (trusted). frameops cases avoid null elements in numeric lists (F-C11-5 makes such a frame "
-              "unexportable).")
+              "unexportable). F-C11-6 (new, round 3): after a column of a frame's schema is renamed in place, arrow() may still use the old names "
+              "(module-level single-item memo behind DataFrame.column_names); such sessions are excluded by the guard 'the exported names are an earlier "
+              "version of this frame's names'.")
 DESIGN_REF = "DESIGN.md section 8, C11"
 COQ_IMPORTS = "From Orso Require Import Gen.C11_ArrowMap Model.C11."
 COQ_CHECKS = {"stream": "c11_check_stream", "batch": "c11_check_batch", "roundtrip": "c11_check_roundtrip",
-              "o2a": "c11_check_o2a", "a2o": "c11_check_a2o", "schema": "c11_check_schema", "frameops": "c11_check_frameops"}
+              "o2a": "c11_check_o2a", "a2o": "c11_check_a2o", "schema": "c11_check_schema", "frameops": "c11_check_frameops",
+              "iterops": "c11_check_iterops", "colops": "c11_check_colops"}
 COQ_SHOW = {"stream": "c11_show_stream", "roundtrip": "c11_show_roundtrip", "o2a": "c11_show_o2a", "a2o": "c11_show_a2o",
-            "schema": "c11_show_schema", "frameops": "c11_show_frameops"}
+            "schema": "c11_show_schema", "frameops": "c11_show_frameops", "iterops": "c11_show_iterops", "colops": "c11_show_colops"}
 RULE = ("stream: typed Arrow tables (int8..uint64/float/string/bool/binary/timestamp/date/decimal/list columns, nulls anywhere, integers beyond 2^53, "
         "multi-chunk tables) split into a sequence of tables, read through from_arrow(tables, size) with next() called N+2 times; exhaustive over all "
         "splittings of <= 6 rows into <= 4 tables (zero-row tables anywhere) x sizes 0..N+1 and none, then random; batch: process_table with every batch "
@@ -76,7 +89,9 @@ TRUSTED = [
     "C11 frame model (Model/C11.v Section Frame): DataFrame._rows as one-shot iterator | list; materialize / rowcount / slice->head / to_arrow as in dataframe.py "
     "184-189, 245-253, 418-421 and converters.py 72-86; the cursor is not modelled. FlatColumn.__init__ decimal block as ctor_decimal (closed form; 0.75*p as "
     "truncating 3p/4), validated against ctor_dec_probes on every run",
-    "gen(): tables obtained by probing the live FlatColumn.arrow_field / arrow_type_map / PYTHON_TO_ORSO_MAP / from_name, the decimal128(...) arguments and BATCH_SIZE read from the AST (fail closed)",
+    "C11 session models (Model/C11.v): iterator steps next/islice/for-break/list as take_n on the same iter state (__iter__ returns self); in-place attribute "
+    "assignment on a FlatColumn as record update without the constructor; in-place rename of a frame's column as update of the names list",
+    "gen(): every probe uses a fresh column object; tables obtained by probing the live FlatColumn.arrow_field / arrow_type_map / PYTHON_TO_ORSO_MAP / from_name, the decimal128(...) arguments and BATCH_SIZE read from the AST (fail closed)",
     "modelled, not verified: pyarrow (Table.from_arrays, to_batches, decimal128 range check), pandas (to_pandas, replace, itertuples): Section oracles / hand model validated by the differential run only",
 ]
 ASSUMPTIONS = [
@@ -292,9 +307,12 @@ def gen(repo):
         raise ValueError("decimal128 arguments do not read self.precision and self.scale once each: %r" % (dargs,))
     probes = [(7, 3), (9, 4)]
 
-    def probe(col):
+    def probe(mk):
+        """Each probe uses a FRESH column object (what arrow_field says of an object used for the first time); what happens
+        to an object read twice is the business of the colops sessions, not of the tables."""
         out = []
         for p, s in probes:
+            col = mk()
             col.precision, col.scale = p, s
             f = col.arrow_field
             if f.name != col.name:
@@ -322,13 +340,13 @@ def gen(repo):
         for n, m in members:
             if n == "ARRAY":
                 continue
-            (da, na), (db, nb) = probe(S.FlatColumn(name="c", type=m))
+            (da, na), (db, nb) = probe(lambda: S.FlatColumn(name="c", type=m))
             nullable_seen.update([na, nb])
             top.append((tid[m], entry(da, db, n)))
         elem = []
         list_ids = set()
         for e in [None] + [m for _, m in members]:
-            (da, na), (db, nb) = probe(S.FlatColumn(name="c", type=OT.ARRAY, element_type=e))
+            (da, na), (db, nb) = probe(lambda: S.FlatColumn(name="c", type=OT.ARRAY, element_type=e))
             nullable_seen.update([na, nb])
             if da[0] != "list" or db[0] != "list" or da[1] != db[1]:
                 raise ValueError("arrow_field of an ARRAY column is not a list type: %r" % (da,))
@@ -345,8 +363,8 @@ def gen(repo):
         except ValueError:
             eager = True
         # the rules read from the AST must explain what the code does with None / 0 / a value
-        c = S.FlatColumn(name="c", type=OT.DECIMAL, precision=5, scale=2)
         for p, s in [(None, None), (5, 0), (5, None), (None, 3), (12, 7)]:
+            c = S.FlatColumn(name="c", type=OT.DECIMAL, precision=5, scale=2)
             c.precision, c.scale = p, s
             want_ps = [_apply_rule(dargs[0], p, s), _apply_rule(dargs[1], p, s)]
             try:
@@ -864,20 +882,32 @@ def _make_frame(case):
     if src.startswith("arrow"):
         tables = [_build_table(case["cols"], t) for t in case["tables"]]
         arg = {"arrow-list": lambda: list(tables), "arrow-gen": lambda: (t for t in tables), "arrow-single": lambda: tables[0]}[src]()
-        return DataFrame.from_arrow(arg)
+        return DataFrame.from_arrow(arg), None
     rows = [tuple(pyval(c) for c in r) for r in _frame_rows(case)]
-    return DataFrame(rows=(r for r in rows) if src == "rows-gen" else list(rows), schema=names)
+    return DataFrame(rows=(r for r in rows) if src == "rows-gen" else list(rows), schema=names), names
+
+
+def _rename_in_place(df, caller_names, j, new):
+    """Rename column j the way a caller holding the frame's schema does: on the RelationSchema's column object, or in the list of
+    names the caller gave the constructor (the frame keeps that very list)."""
+    if caller_names is not None:
+        caller_names[j] = new
+    else:
+        df.schema.columns[j].name = new
 
 
 def _observe_frameops(case):
     try:
-        df = _make_frame(case)
+        df, caller_names = _make_frame(case)
     except Exception as e:
         return {"raise": _exc(e)}
     outs = []
     for op in case["ops"]:
         try:
-            if op[0] == "arrow":
+            if op[0] == "rename":
+                _rename_in_place(df, caller_names, op[1], op[2])
+                outs.append({})
+            elif op[0] == "arrow":
                 t = df.arrow() if op[1] is None else df.arrow(op[1])
                 cols = [[canon(x) for x in t.column(j).to_pylist()] for j in range(t.num_columns)]
                 outs.append({"names": list(t.column_names), "nrows": int(t.num_rows),
@@ -895,9 +925,103 @@ def _observe_frameops(case):
     return {"outs": outs}
 
 
+def _observe_iterops(case):
+    import itertools as IT
+
+    from orso.converters import from_arrow
+
+    tables = [_build_table(case["cols"], t) for t in case["tables"]]
+    how, size = case["how"], case["size"]
+    try:
+        arg = {"list": lambda: list(tables), "tuple": lambda: tuple(tables), "gen": lambda: (t for t in tables),
+               "single": lambda: tables[0]}[how]()
+        it, _schema = from_arrow(arg) if size is None else from_arrow(arg, size)
+    except Exception as e:
+        return {"raise": _exc(e)}
+    outs = []
+    for op in case["ops"]:
+        try:
+            if op[0] == "next":
+                r = next(it, None)
+                got = [] if r is None else [r]
+            elif op[0] == "iternext":
+                r = next(iter(it), None)
+                got = [] if r is None else [r]
+            elif op[0] == "islice":
+                got = list(IT.islice(it, op[1]))
+            elif op[0] == "forbreak":
+                got = []
+                for r in it:
+                    got.append(r)
+                    if len(got) >= op[1]:
+                        break
+            elif op[0] == "list":
+                got = list(it)
+            elif op[0] == "for":
+                got = []
+                for r in it:
+                    got.append(r)
+            else:
+                raise KeyError(op[0])
+        except Exception as e:
+            outs.append({"raise": _exc(e)})
+            break
+        outs.append([[canon(x) for x in r] for r in got])
+    return {"outs": outs}
+
+
+COL_ATTRS = {"type": "type", "elem": "element_type", "p": "precision", "s": "scale", "name": "name", "nullable": "nullable"}
+
+
+def _observe_colops(case):
+    from orso.schema import FlatColumn, RelationSchema, convert_arrow_schema_to_orso_schema, convert_orso_schema_to_arrow_schema
+    from orso.types import OrsoTypes
+
+    try:
+        c = _mk_flatcolumn(case["col"])
+        schema = RelationSchema(name="s", columns=[c])   # holds the SAME column object
+    except Exception as e:
+        return {"ctor": _exc(e)}
+    obs = {"col": _col_obs(c), "outs": []}
+    for op in case["ops"]:
+        if op[0] == "set":
+            v = op[2]
+            if op[1] in ("type", "elem") and v is not None:
+                v = OrsoTypes[v]
+            setattr(c, COL_ATTRS[op[1]], v)
+            obs["outs"].append({})
+            continue
+        o = {"cur": _col_obs(c)}
+        try:
+            if op[0] == "field":
+                fs = [c.arrow_field]
+            else:
+                fs = list(convert_orso_schema_to_arrow_schema(schema, True) if op[1] else convert_orso_schema_to_arrow_schema(schema))
+            o["fields"] = [_field_obs(f) for f in fs]
+        except Exception as e:
+            o["fields"] = {"raise": _exc(e)}
+            obs["outs"].append(o)
+            continue
+        try:
+            if op[0] == "field":
+                o["back"] = [_col_obs(FlatColumn.from_arrow(fs[0]))]
+            else:
+                import pyarrow as pa
+
+                o["back"] = [_col_obs(b) for b in convert_arrow_schema_to_orso_schema(pa.schema(fs)).columns]
+        except Exception as e:
+            o["back"] = {"raise": _exc(e)}
+        obs["outs"].append(o)
+    return obs
+
+
 def observe(case):
     if case["kind"] == "frameops":
         return _observe_frameops(case)
+    if case["kind"] == "iterops":
+        return _observe_iterops(case)
+    if case["kind"] == "colops":
+        return _observe_colops(case)
     return {"stream": _observe_stream, "batch": _observe_batch, "roundtrip": _observe_roundtrip, "o2a": _observe_o2a,
             "a2o": _observe_a2o, "schema": _observe_schema}[case["kind"]](case)
 
@@ -1197,10 +1321,17 @@ def _oracle_frameops(case, obs, tol):
         return "building the frame raised " + obs["raise"]
     rows = _frame_rows(case)
     names = [c["name"] for c in case["cols"]]
+    earlier = []  # the names the frame had before a rename
     flags = _col_flags(rows)
     outs = obs["outs"]
     for k, op in enumerate(case["ops"]):
         what = "call %d (%s%s) on the same frame" % (k + 1, op[0], "" if op[0] != "arrow" else "(%s)" % ("" if op[1] is None else op[1]))
+        if op[0] == "rename":
+            if k < len(outs) and "raise" in outs[k]:
+                return "%s raised %s" % (what, outs[k]["raise"])
+            earlier.append(list(names))
+            names = names[:op[1]] + [op[2]] + names[op[1] + 1:]
+            continue
         if k >= len(outs):
             return what + ": not reached"
         o = outs[k]
@@ -1211,11 +1342,11 @@ def _oracle_frameops(case, obs, tol):
                 return "%s: rowcount is %d, the frame holds %d rows" % (what, o["count"], len(rows))
         elif op[0] == "arrow":
             size = op[1]
+            if o["names"] != names and not ("F-C11-6" in tol and o["names"] in earlier):
+                return "%s: the frame's columns are named %r now, the Arrow table has %r" % (what, names, o["names"])
             if size is not None and size < 0:
-                continue  # outside the quantifier: model-compared only
+                continue  # a negative size is outside the quantifier: the rows are model-compared only
             expected = rows if size is None else rows[:size]
-            if o["names"] != names:
-                return "%s: column names %r became %r" % (what, names, o["names"])
             if o["nrows"] != len(expected) or len(o["rows"]) != len(expected):
                 return "%s: the Arrow table has %d rows, expected %d" % (what, o["nrows"], len(expected))
             why = _rows_why(expected, o["rows"] + [None], flags, tol, what)
@@ -1224,7 +1355,86 @@ def _oracle_frameops(case, obs, tol):
     return None
 
 
-_ORACLES = {"frameops": _oracle_frameops, "stream": _oracle_stream, "batch": _oracle_batch, "roundtrip": _oracle_roundtrip, "o2a": _oracle_o2a,
+def _iter_expect(op, remaining):
+    if op[0] in ("next", "iternext"):
+        return 1
+    if op[0] in ("islice", "forbreak"):
+        return min(op[1], len(remaining))
+    return len(remaining)
+
+
+def _oracle_iterops(case, obs, tol):
+    """However the rows iterator is consumed, step by step on the same object, the steps deliver the Arrow rows once each, in order,
+    cut to the size: every step takes the next rows."""
+    if "raise" in obs:
+        return "from_arrow raised " + obs["raise"]
+    rows = [r for t in case["tables"] for r in _table_rows(t)]
+    size = case["size"]
+    if size == 0:
+        return None  # outside the quantifier
+    remaining = rows if size is None else rows[:size]
+    flags = _col_flags(rows)
+    at = 0
+    for k, op in enumerate(case["ops"]):
+        what = "step %d (%s) on the same iterator" % (k + 1, " ".join(str(x) for x in op))
+        if k >= len(obs["outs"]):
+            return what + ": not reached"
+        got = obs["outs"][k]
+        if isinstance(got, dict):
+            return "%s raised %s" % (what, got["raise"])
+        n = min(_iter_expect(op, remaining), len(remaining))
+        want = remaining[:n]
+        if len(got) != len(want):
+            return "%s delivered %d rows, the next %d of the %d remaining rows (from row %d) were due" % (what, len(got), len(want), len(remaining), at)
+        for i, (e, o) in enumerate(zip(want, got)):
+            if len(o) != len(e):
+                return "%s: row %d has %d cells, the Arrow row has %d" % (what, at + i, len(o), len(e))
+            for j, (x, y) in enumerate(zip(e, o)):
+                why = _cell_why(x, y, flags.get(j, ()), tol)
+                if why:
+                    return "%s: row %d of the stream, column %d: %s" % (what, at + i, j, why)
+        remaining = remaining[n:]
+        at += n
+    return None
+
+
+def _oracle_colops(case, obs, tol):
+    """A column's Arrow field describes the column AS IT IS when the field is read: after attributes were assigned in place the
+    typing clause holds of the current attributes, and the field carries the current name (or the identity)."""
+    if "ctor" in obs:
+        return None
+    cur = dict(obs["col"])
+    for k, (op, o) in enumerate(zip(case["ops"], obs["outs"])):
+        if op[0] == "set":
+            cur[op[1]] = op[2]
+            continue
+        what = "step %d (%s) on the same column object, now %s named %r" % (k + 1, " ".join(str(x) for x in op), _tdesc(cur), cur["name"])
+        for a in ("type", "elem", "p", "s", "name", "nullable"):
+            if o["cur"][a] != cur[a]:
+                return "%s: attribute %s reads %r after it was assigned %r" % (what, a, o["cur"][a], cur[a])
+        name = cur["identity"] if (op[0] == "schema" and op[1]) else cur["name"]
+        fs = o["fields"]
+        typed = not (cur["type"] == "DECIMAL" and cur["elem"] is not None)  # a DECIMAL with an element type is no Orso type
+        if isinstance(fs, dict):
+            why = _col_round_trip_why(cur, fs, name) if typed else None
+            if why:
+                return "%s: %s" % (what, why)
+            continue
+        if len(fs) != 1:
+            return "%s: %d Arrow fields for one column" % (what, len(fs))
+        if fs[0]["name"] != name:
+            return "%s: the Arrow field is named %r, expected %r" % (what, fs[0]["name"], name)
+        back = o["back"]
+        b = back if isinstance(back, dict) else back[0]
+        why = (_col_round_trip_why(cur, b, name) if typed else None) or (None if isinstance(back, dict) else _field_col_why(fs[0], b))
+        if why:
+            return "%s: %s" % (what, why)
+    if len(obs["outs"]) != len(case["ops"]):
+        return "session stopped after %d of %d steps" % (len(obs["outs"]), len(case["ops"]))
+    return None
+
+
+_ORACLES = {"iterops": _oracle_iterops, "colops": _oracle_colops, "frameops": _oracle_frameops, "stream": _oracle_stream, "batch": _oracle_batch, "roundtrip": _oracle_roundtrip, "o2a": _oracle_o2a,
             "a2o": _oracle_a2o, "schema": _oracle_schema}
 
 
@@ -1234,11 +1444,14 @@ def oracle(case, obs, tol=()):
 
 def known(case, obs):
     """F-C11-2 / F-C11-5: exactly the cells the known defect of process_table changes, everything else still compared."""
-    if case["kind"] not in ("stream", "batch", "roundtrip", "frameops"):
+    if case["kind"] not in ("stream", "batch", "roundtrip", "frameops", "iterops"):
         return None
     if oracle(case, obs) is None:
         return None
-    for tol in (("F-C11-2",), ("F-C11-5",), ("F-C11-2", "F-C11-5")):
+    tols = [("F-C11-2",), ("F-C11-5",), ("F-C11-2", "F-C11-5")]
+    if case["kind"] == "frameops" and any(op[0] == "rename" for op in case["ops"]):
+        tols += [("F-C11-6",), ("F-C11-6", "F-C11-2"), ("F-C11-6", "F-C11-5"), ("F-C11-6", "F-C11-2", "F-C11-5")]
+    for tol in tols:
         if oracle(case, obs, tol) is None:
             return tol[0]
     return None
@@ -1249,6 +1462,8 @@ KNOWN_WITNESSES = {
                 "tables": [[[[["i", 1]], [None], [["i", 2**60 + 1]]]]], "size": None, "how": "list"},
     "F-C11-5": {"kind": "stream", "cols": [{"name": "l", "t": ["list", ["int64"]]}],
                 "tables": [[[[["l", [["i", 1], None, ["i", 2**60 + 1]]]]]]], "size": None, "how": "list"},
+    "F-C11-6": {"kind": "frameops", "cols": [{"name": "a", "t": ["int64"]}], "tables": [[[[["i", 1]]]]], "source": "rows-list",
+                "ops": [["arrow", None], ["rename", 0, "renamed"], ["arrow", None]]},
 }
 
 
@@ -1335,9 +1550,40 @@ def _coq_req(spec, tid):
 
 
 def _coq_op(op):
+    if op[0] == "rename":
+        return "(SRename %s %s)" % (L.nat(op[1]), L.text(op[2]))
     if op[0] == "arrow":
-        return "(OpArrow %s)" % L.opt(None if op[1] is None else L.Z(op[1]))
-    return {"rowcount": "OpRowcount", "materialize": "OpMaterialize"}[op[0]]
+        return "(SOp (OpArrow %s))" % L.opt(None if op[1] is None else L.Z(op[1]))
+    return {"rowcount": "(SOp OpRowcount)", "materialize": "(SOp OpMaterialize)"}[op[0]]
+
+
+def _coq_iop(op):
+    if op[0] in ("next", "iternext"):
+        return "INext"
+    if op[0] in ("islice", "forbreak"):
+        return "(ITake %s)" % L.nat(op[1])
+    return "IDrain"
+
+
+def _coq_cop(op, tid):
+    if op[0] == "field":
+        return "CField"
+    if op[0] == "schema":
+        return "(CSchema %s)" % L.boolean(op[1])
+    a, v = op[1], op[2]
+    if a in ("type", "elem") and v is not None and v not in tid:
+        return None
+    if a == "type":
+        return None if v is None else "(CSetType %s)" % L.N(tid[v])
+    if a == "elem":
+        return "(CSetElem %s)" % L.opt(None if v is None else L.N(tid[v]))
+    if a in ("p", "s"):
+        if v is not None and type(v) is not int:
+            return None
+        return "(%s %s)" % ("CSetPrec" if a == "p" else "CSetScale", L.opt(None if v is None else L.Z(v)))
+    if a == "name":
+        return "(CSetName %s)" % L.text(v)
+    return "(CSetNullable %s)" % L.boolean(v)
 
 
 def _coq_fobs(o):
@@ -1418,6 +1664,32 @@ def to_coq(case, obs):
             L.boolean(case["source"] != "rows-list"), tables, L.lst(L.text(c["name"]) for c in case["cols"]),
             L.lst(_coq_op(op) for op in case["ops"]), L.lst(_coq_fobs(o) for o in obs["outs"]))
         return ("frameops", term)
+    if kind == "iterops":
+        if "raise" in obs or any(isinstance(o, dict) for o in obs["outs"]) or len(obs["outs"]) != len(case["ops"]):
+            return None
+        term = "((%s, %s, %s, %s) : iterops_case)" % (
+            L.lst(_coq_rows(_table_rows(t)) for t in case["tables"]), L.opt(None if case["size"] is None else L.N(case["size"])),
+            L.lst(_coq_iop(op) for op in case["ops"]), L.lst(_coq_rows(o) for o in obs["outs"]))
+        return ("iterops", term)
+    if kind == "colops":
+        if "ctor" in obs or len(obs["outs"]) != len(case["ops"]):
+            return None
+        col = _coq_col(obs["col"], tid)
+        ops = [_coq_cop(op, tid) for op in case["ops"]]
+        if col is None or any(o is None for o in ops):
+            return None
+        outs = []
+        for op, o in zip(case["ops"], obs["outs"]):
+            if op[0] == "set":
+                outs.append("None")
+                continue
+            fs = _coq_result(o["fields"], lambda l: L.lst(_coq_field(f) for f in l))
+            back = _coq_result(o.get("back", {"raise": "ValueError"}), lambda l: _coq_cols(l, tid))
+            if fs is None or back is None:
+                return None
+            outs.append("(Some (%s, %s))" % (fs, back))
+        term = "((%s, %s, %s, %s) : colops_case)" % (L.text(obs["col"]["identity"]), col, L.lst(ops), L.lst(outs))
+        return ("colops", term)
     return None
 
 
@@ -1618,6 +1890,149 @@ def _frame_grid():
             k += 1
 
 
+def _frame_rename_grid():
+    """In-place renames between the calls: before the first export, after an unlimited export, after a limited one, after rowcount /
+    materialize, twice; every way of backing the frame; a frame with rows and one without."""
+    seqs = [
+        [["rename", 0, "n0"], ["arrow", None]],
+        [["arrow", None], ["rename", 0, "n0"], ["arrow", None]],
+        [["arrow", 1], ["rename", 1, "n1"], ["arrow", None]],
+        [["rowcount"], ["rename", 1, "n1"], ["arrow", None], ["arrow", 1]],
+        [["materialize"], ["rename", 0, "n0"], ["arrow", 1]],
+        [["arrow", None], ["rename", 0, "n0"], ["arrow", 1], ["rename", 1, "n1"], ["arrow", None]],
+        [["rename", 0, "n0"], ["rename", 0, "m0"], ["arrow", None], ["rowcount"]],
+    ]
+    k = 0
+    for n, comp in [(0, (0,)), (3, (2, 0, 1))]:
+        for src in FRAME_SOURCES:
+            if src == "arrow-single" and len(comp) > 1:
+                continue
+            for seq in seqs:
+                spec = SECOND[k % len(SECOND)]
+                rows = _small_rows(n, spec)
+                tables, at = [], 0
+                for c in comp:
+                    tables.append([rows[at:at + c]])
+                    at += c
+                yield {"kind": "frameops", "cols": [{"name": "id", "t": ["int64"]}, {"name": "v", "t": spec}], "tables": tables,
+                       "source": src, "ops": [list(op) for op in seq]}
+                k += 1
+
+
+# ---- the rows iterator consumed in steps
+ITER_ALPHABET = [["next"], ["iternext"], ["islice", 0], ["islice", 2], ["forbreak", 1], ["forbreak", 2], ["list"], ["for"]]
+
+
+def _iter_grid():
+    """All sessions of two steps over {next, next(iter()), islice 0|2, for..break after 1|2, list, for} followed by list(it), on four
+    streams (one table; zero-row table in the middle; short-long-short; no row) x size none / inside a table / = N."""
+    k = 0
+    for n, comp in [(3, (3,)), (4, (2, 0, 2)), (5, (1, 3, 1)), (0, (0,))]:
+        for size in ([None, 2, n] if n else [None, 2]):
+            for a in ITER_ALPHABET:
+                for b in ITER_ALPHABET:
+                    spec = SECOND[k % len(SECOND)]
+                    rows = _small_rows(n, spec)
+                    tables, at = [], 0
+                    for c in comp:
+                        tables.append([rows[at:at + c]])
+                        at += c
+                    hows = ["list", "gen", "tuple"] + (["single"] if len(comp) == 1 else [])
+                    yield {"kind": "iterops", "cols": [{"name": "id", "t": ["int64"]}, {"name": "v", "t": spec}], "tables": tables,
+                           "size": size, "how": hows[k % len(hows)], "ops": [list(a), list(b), ["list"]]}
+                    k += 1
+
+
+def _rand_iterops(rng):
+    c = _rand_stream(rng)
+    n = sum(len(ch) for t in c["tables"] for ch in t)
+    ops = []
+    for _ in range(rng.randint(1, 5)):
+        r = rng.random()
+        if r < 0.3:
+            ops.append([rng.choice(["next", "iternext"])])
+        elif r < 0.7:
+            ops.append([rng.choice(["islice", "forbreak"]), rng.choice([1, 1, 2, 3, max(1, n - 1), n + 1])])
+        elif r < 0.75:
+            ops.append(["islice", 0])
+        else:
+            ops.append([rng.choice(["list", "for"])])
+    if rng.random() < 0.7:
+        ops.append(["list"])
+    how = c["how"] if c["how"] != "df" else "list"
+    if not c["tables"]:
+        how = "list"
+    return {"kind": "iterops", "cols": c["cols"], "tables": c["tables"], "size": c["size"], "how": how, "ops": ops}
+
+
+# ---- one column object modified in place
+def _colspec(t, elem=None, p=None, s=None, name="c", nullable=True):
+    return {"name": name, "type": t, "elem": elem, "p": p, "s": s, "nullable": nullable}
+
+
+def _col_mutations():
+    ms = _members()
+    for t in ms:
+        if t not in ("ARRAY", "DECIMAL"):
+            yield [["set", "type", t]]
+    yield [["set", "type", "DECIMAL"], ["set", "p", 18], ["set", "s", 9]]
+    yield [["set", "type", "ARRAY"], ["set", "elem", "INTEGER"]]
+    yield [["set", "p", 38], ["set", "s", 0]]
+    yield [["set", "p", 1], ["set", "s", 1]]
+    yield [["set", "s", 0]]
+    yield [["set", "p", None]]
+    yield [["set", "name", "renamed"]]
+    yield [["set", "nullable", False]]
+    for e in _accepted_elems():
+        yield [["set", "elem", e]]
+
+
+def _col_grid():
+    """One column object read, modified in place, read again (and the same modification on an object never read before)."""
+    initial = [_colspec("INTEGER"), _colspec("VARCHAR"), _colspec("DECIMAL", p=10, s=2), _colspec("ARRAY", elem="VARCHAR"),
+               _colspec("DATE"), _colspec("TIMESTAMP", nullable=False), _colspec("DOUBLE"), _colspec("BLOB"), _colspec("BOOLEAN")]
+    reads = [[["field"], ["field"]], [["schema", False], ["schema", False]], [["field"], ["schema", True]], [["schema", True], ["field"]],
+             [["schema", False], ["field"]]]
+    k = 0
+    for col in initial:
+        for mut in _col_mutations():
+            for r0, r1 in (reads[0], reads[1 + k % 4]):
+                yield {"kind": "colops", "col": dict(col), "ops": [list(r0)] + [list(m) for m in mut] + [list(r1)]}
+            if k % 3 == 0:
+                yield {"kind": "colops", "col": dict(col), "ops": [list(m) for m in mut] + [["field"]]}
+            k += 1
+
+
+def _rand_colops(rng):
+    ms = _members()
+    t = rng.choice(ms)
+    col = _colspec(t, name=rng.choice(["a", "é", "x y"]), nullable=rng.random() < 0.7)
+    if t == "ARRAY":
+        col["elem"] = rng.choice([None] + ms)
+    if t == "DECIMAL":
+        col["p"] = rng.randint(1, 38)
+        col["s"] = rng.randint(0, col["p"])
+    ops = []
+    for _ in range(rng.randint(2, 7)):
+        r = rng.random()
+        if r < 0.4:
+            ops.append(rng.choice([["field"], ["field"], ["schema", False], ["schema", True]]))
+        elif r < 0.55:
+            ops.append(["set", "type", rng.choice(ms)])
+        elif r < 0.65:
+            ops.append(["set", "elem", rng.choice([None] + ms)])
+        elif r < 0.78:
+            ops.append(["set", "p", rng.choice([None, 0, 1, 10, 28, 29, 38, 39])])
+        elif r < 0.9:
+            ops.append(["set", "s", rng.choice([None, 0, 1, 2, 10, 38])])
+        elif r < 0.95:
+            ops.append(["set", "name", rng.choice(["b", "renamed", ""])])
+        else:
+            ops.append(["set", "nullable", rng.random() < 0.5])
+    ops.append(rng.choice([["field"], ["schema", False], ["schema", True]]))
+    return {"kind": "colops", "col": col, "ops": ops}
+
+
 def _rand_frameops(rng):
     ncols = rng.randint(1, 4)
     cols = [{"name": rng.choice(["a", "name", "été", "x y", "Col"]) + str(j), "t": rng.choice(RT_SPECS)} for j in range(ncols)]
@@ -1640,6 +2055,8 @@ def _rand_frameops(rng):
     for _ in range(rng.randint(1, 5)):
         r = rng.random()
         ops.append(["arrow", rng.choice(sizes)] if r < 0.7 else ["rowcount"] if r < 0.85 else ["materialize"])
+    if rng.random() < 0.2:  # round 3: a column renamed in place somewhere in the session
+        ops.insert(rng.randint(0, len(ops) - 1), ["rename", rng.randrange(ncols), rng.choice(["renamed", "z", "été"])])
     return {"kind": "frameops", "cols": cols, "tables": tables, "source": rng.choice(sources), "ops": ops}
 
 
@@ -1763,12 +2180,20 @@ def exhaustive(tier):
             yield c
         for c in _frame_grid():
             yield c
+        for c in _frame_rename_grid():
+            yield c
+        for c in _iter_grid():
+            yield c
+        for c in _col_grid():
+            yield c
 
     return it(), ("all splittings of 0..%d rows into 1..4 tables (zero-row tables anywhere) x size limits none, 0, 1..N+1 (and the empty table list); "
                   "every OrsoTypes member, every element type (by member and by name), every DECIMAL(p,s) with 0<=s<=p<=38, p>=1; "
                   "every constructible Arrow type x nullable x mappable_as_binary; one frame used repeatedly: all sequences of 1..2 calls (3 on a three-table "
                   "stream) from arrow()/arrow(0|1|N|N+1)/rowcount/materialize() x frames over Arrow tables (list, generator, single) and over "
-                  "Python rows (list, generator)" % nmax)
+                  "Python rows (list, generator), and in-place renames between the calls; the rows iterator consumed in three steps (all pairs from next / "
+                  "next(iter()) / islice 0,2 / for-break 1,2 / list / for, then list) on four streams x sizes; one column object read, modified in place "
+                  "(every type, decimal parameters, element types, name, nullable), read again" % nmax)
 
 
 def _rand_schema(rng):
@@ -1809,6 +2234,11 @@ def generate(rng, tier):
     # round 2: one frame used repeatedly (drawn after the cases above, which are unchanged for a given seed)
     for _ in range(150 if tier == "quick" else 3000):
         yield _rand_frameops(rng)
+    # round 3: the iterator consumed in steps; one column object modified in place
+    for _ in range(150 if tier == "quick" else 2000):
+        yield _rand_iterops(rng)
+    for _ in range(150 if tier == "quick" else 2000):
+        yield _rand_colops(rng)
 
 
 def corpus():
@@ -1833,6 +2263,14 @@ def corpus():
     for src in ("arrow-gen", "arrow-list", "rows-gen"):
         yield {"kind": "frameops", "cols": id_col, "tables": [t1, [[]], t2], "source": src,
                "ops": [["arrow", None], ["arrow", None], ["rowcount"], ["arrow", 2]]}
+    # round 3 (seeded C11-r3s1): a column read, changed in place, read again describes what it is now
+    yield {"kind": "colops", "col": _colspec("DECIMAL", p=10, s=2),
+           "ops": [["field"], ["set", "p", 38], ["set", "s", 0], ["field"], ["schema", False], ["set", "name", "amount"], ["schema", False]]}
+    yield {"kind": "colops", "col": _colspec("INTEGER"), "ops": [["schema", False], ["set", "type", "DOUBLE"], ["schema", False], ["field"]]}
+    # round 3 (seeded C11-r3s2): sniff the first row, then read the rest
+    for ops in ([["next"], ["list"]], [["islice", 2], ["list"]], [["next"], ["next"], ["forbreak", 2], ["for"]]):
+        yield {"kind": "iterops", "cols": id_col, "tables": [t1, [[]], t2], "size": None, "how": "list", "ops": ops}
+    yield {"kind": "iterops", "cols": id_col, "tables": [t1, [[]], t2], "size": 2, "how": "gen", "ops": [["iternext"], ["list"]]}
     # round 2 (seeded C11-r2s2): decimals wider than the decimal context precision keep their precision
     yield _o2a("DECIMAL", p=38, s=10)
     yield _o2a("DECIMAL", byname="DECIMAL(38,10)")
@@ -1853,6 +2291,10 @@ def search(rng):
             yield _rand_case(rng)
         for _ in range(10):
             yield _rand_frameops(rng)
+        for _ in range(10):
+            yield _rand_iterops(rng)
+        for _ in range(10):
+            yield _rand_colops(rng)
         ms = _members()
         t = rng.choice(ms)
         yield _o2a(t, elem=rng.choice(ms) if t == "ARRAY" else None,
@@ -1897,13 +2339,34 @@ def shrink(case):
             for a, ch in enumerate(t):
                 for b in range(len(ch)):
                     yield dict(case, tables=ts[:i] + [t[:a] + [ch[:b] + ch[b + 1:]] + t[a + 1:]] + ts[i + 1:])
-        if len(case["cols"]) > 1:
+        if len(case["cols"]) > 1 and not any(op[0] == "rename" for op in ops):
             for j in range(len(case["cols"])):
                 yield dict(case, cols=case["cols"][:j] + case["cols"][j + 1:],
                            tables=[[[r[:j] + r[j + 1:] for r in ch] for ch in t] for t in ts])
         for i, op in enumerate(ops):
             if op[0] == "arrow" and op[1] is not None:
                 yield dict(case, ops=ops[:i] + [["arrow", None]] + ops[i + 1:])
+    elif k == "iterops":
+        ops, ts = case["ops"], case["tables"]
+        for i in range(len(ops)):
+            yield dict(case, ops=ops[:i] + ops[i + 1:])
+        if len(ts) > 1:
+            for i in range(len(ts)):
+                yield dict(case, tables=ts[:i] + ts[i + 1:], how="list" if case["how"] == "single" else case["how"])
+        for i, t in enumerate(ts):
+            for a, ch in enumerate(t):
+                for b in range(len(ch)):
+                    yield dict(case, tables=ts[:i] + [t[:a] + [ch[:b] + ch[b + 1:]] + t[a + 1:]] + ts[i + 1:])
+        if len(case["cols"]) > 1:
+            for j in range(len(case["cols"])):
+                yield dict(case, cols=case["cols"][:j] + case["cols"][j + 1:],
+                           tables=[[[r[:j] + r[j + 1:] for r in ch] for ch in t] for t in ts])
+        if case["size"] is not None:
+            yield dict(case, size=None)
+    elif k == "colops":
+        ops = case["ops"]
+        for i in range(len(ops)):
+            yield dict(case, ops=ops[:i] + ops[i + 1:])
     elif k == "batch":
         chs = case["chunks"]
         for a, ch in enumerate(chs):
@@ -1929,6 +2392,10 @@ def nontrivial_key(case, obs):
     if k == "schema" and not case["cols"]:
         return None
     if k in ("o2a", "schema") and "ctor" in obs:
+        return None
+    if k == "iterops" and not any(o for o in obs.get("outs", []) if not isinstance(o, dict)):
+        return None
+    if k == "colops" and ("ctor" in obs or not any(op[0] != "set" for op in case["ops"])):
         return None
     if k == "frameops" and not (_frame_rows(case) and any(op[0] == "arrow" for op in case["ops"])):
         return None
@@ -1962,7 +2429,20 @@ def classify(case, obs):
             yield "o2a:arrow_field-raised"
     elif k == "a2o":
         yield "a2o:" + ("raised" if "raise" in obs["col"] else str(obs["col"]["type"]))
+    elif k == "iterops":
+        yield "iterops:steps=%d" % len(case["ops"])
+        yield "iterops:how=" + case["how"]
+        yield "iterops:size=" + ("none" if case["size"] is None else "given")
+        for op in case["ops"]:
+            yield "iterops:op=" + op[0]
+    elif k == "colops":
+        yield "colops:steps=%d" % min(len(case["ops"]), 8)
+        yield "colops:reads=%d" % min(3, sum(1 for op in case["ops"] if op[0] != "set"))
+        for op in case["ops"]:
+            yield "colops:" + (op[0] if op[0] != "set" else "set-" + op[1])
     elif k == "frameops":
+        if any(op[0] == "rename" for op in case["ops"]):
+            yield "frameops:with-rename"
         yield "frameops:source=" + case["source"]
         yield "frameops:calls=%d" % len(case["ops"])
         yield "frameops:exports=%d" % min(3, sum(1 for op in case["ops"] if op[0] == "arrow"))
